@@ -234,45 +234,55 @@ def preClean (fs : FS) (cf : Path) (r : Rec) : FS :=
 def dedup (ps : List Path) : List Path :=
   ps.foldl (fun acc p => if acc.contains p then acc else acc ++ [p]) []
 
+/-- the state in which the root function starts, from scratch: what the previous build created is gone,
+    the directories for the cache file are made -/
+def buildStart (w : World) (cf : Path) (failFiles : List Path) (failSubs : List H) (old : Rec)
+    (cds : List Path) : SpecSt :=
+  { fs := mkdirs (preClean w.fs cf old) cds, cacheFile := cf, dirSize := w.dirSize, clock := w.clock,
+    failFiles := failFiles, failSubs := failSubs }
+
+/-- a build once the record of the previous build (possibly empty) is known -/
+def buildGo (w : World) (cf : Path) (buildName : String) (root : Prog)
+    (failFiles : List Path) (failSubs : List H) (abort : Nat) (old : Rec) : ApiOut :=
+  let s0 : SpecSt := buildStart w cf failFiles failSubs old []
+  match (if abort = 1 then .error .other else dirsToMake (visible s0) cf [] cf.dropLast) with
+  | .error e =>
+    { res := .error (.os e),
+      world := { w with fs := mkdirs w.fs (old.createdDirs.mergeSort (fun a b => a.length ≤ b.length)) } }
+  | .ok cds =>
+    let s1 := buildStart w cf failFiles failSubs old cds
+    let (r0, s2, tr) := run root none s1
+    -- abort = 2: the function succeeded but writing the cache file fails (injected fault)
+    let r : CallRes := match r0 with | .ok v => if abort = 2 then .error (.os .other) else .ok v | e => e
+    match r with
+    | .error e =>
+      -- roll back: the pre-build tree; the directories the previous build recorded as created
+      -- reappear (the latitude C02 grants; `_create_dirs`)
+      let fsR := mkdirs w.fs (old.createdDirs.mergeSort (fun a b => a.length ≤ b.length))
+      { res := .error e, world := { w with fs := fsR, clock := s2.clock },
+                    invLog := s2.invLog.reverse, obligation := s2.obligation, trace := tr }
+    | .ok v =>
+      let created := dedup (s2.createdDirs.reverse ++ cds)
+      let rec_ : Rec := { buildName := buildName, outputs := s2.outputs.reverse,
+                          createdDirs := created }
+      let n := w.nextSerial
+      let fs' := s2.fs.write cf (cacheToken n) 0
+      { res := .ok v,
+        world := { w with fs := fs', recs := (n, rec_) :: w.recs, nextSerial := n + 1,
+                          clock := s2.clock },
+        invLog := s2.invLog.reverse, obligation := s2.obligation, trace := tr }
+
 /-- `FileBuilder.build_versioned` as documented -/
 def build (w : World) (cf : Path) (buildName : String) (root : Prog)
     (failFiles : List Path := []) (failSubs : List H := []) (abort : Nat := 0) : ApiOut :=
   let refuse (e : Exc) : ApiOut := { res := .error e, world := w }
-  let go (old : Rec) : ApiOut :=
-    let fs0 := preClean w.fs cf old
-    let s0 : SpecSt := { fs := fs0, cacheFile := cf, dirSize := w.dirSize, clock := w.clock,
-                         failFiles := failFiles, failSubs := failSubs }
-    match (if abort = 1 then .error .other else dirsToMake (visible s0) cf [] cf.dropLast) with
-    | .error e =>
-      { res := .error (.os e),
-        world := { w with fs := mkdirs w.fs (old.createdDirs.mergeSort (fun a b => a.length ≤ b.length)) } }
-    | .ok cds =>
-      let s1 := { s0 with fs := mkdirs s0.fs cds }
-      let (r0, s2, tr) := run root none s1
-      -- abort = 2: the function succeeded but writing the cache file fails (injected fault)
-      let r : CallRes := match r0 with | .ok v => if abort = 2 then .error (.os .other) else .ok v | e => e
-      match r with
-      | .error e =>
-        -- roll back: the pre-build tree; the directories the previous build recorded as created
-        -- reappear (the latitude C02 grants; `_create_dirs`)
-        let fsR := mkdirs w.fs (old.createdDirs.mergeSort (fun a b => a.length ≤ b.length))
-        { res := .error e, world := { w with fs := fsR, clock := s2.clock },
-                      invLog := s2.invLog.reverse, obligation := s2.obligation, trace := tr }
-      | .ok v =>
-        let created := dedup (s2.createdDirs.reverse ++ cds)
-        let rec_ : Rec := { buildName := buildName, outputs := s2.outputs.reverse,
-                            createdDirs := created }
-        let n := w.nextSerial
-        let fs' := s2.fs.write cf (cacheToken n) 0
-        { res := .ok v,
-          world := { w with fs := fs', recs := (n, rec_) :: w.recs, nextSerial := n + 1,
-                            clock := s2.clock },
-          invLog := s2.invLog.reverse, obligation := s2.obligation, trace := tr }
   match w.cacheState cf with
   | .isDir => refuse (.os .isADir)
   | .corrupt => refuse (.runtime .corrupt)
-  | .absent => go { buildName := buildName, outputs := [], createdDirs := [] }
-  | .valid r => if r.buildName = buildName then go r else refuse (.runtime .nameMismatch)
+  | .absent => buildGo w cf buildName root failFiles failSubs abort { buildName := buildName, outputs := [], createdDirs := [] }
+  | .valid r =>
+    if r.buildName = buildName then buildGo w cf buildName root failFiles failSubs abort r
+    else refuse (.runtime .nameMismatch)
 
 /-- `FileBuilder.clean` as documented -/
 def clean (w : World) (cf : Path) (buildName : Option String) : ApiOut :=
